@@ -3,8 +3,8 @@
 package c14
 
 import (
-	"context"
 	"bytes"
+	"context"
 	"fmt"
 	"sort"
 	"strings"
@@ -234,6 +234,7 @@ func body(fine bool) func() {
 		vrt.Observe("%s accepted=%v events=%v", variant, accepted, events)
 	}
 }
+
 // histories: sequential subscribe / write / cancel histories on the level
 // property. Every accepted write (by a client, by name or by numeric id, or
 // by the service) reaches each subscriber of the moment exactly once, in
@@ -426,6 +427,7 @@ func histories(sameClient bool) func() {
 		vrt.Observe("order=%d third=%d mode=%d", order, third, mode)
 	}
 }
+
 // brokenSubscriber: one of the subscribers sits behind a connection the
 // server can no longer write to (and is still registered). Writes by a client
 // and by the service are judged as usual: stored, readable, announced once to
@@ -511,6 +513,7 @@ func brokenSubscriber() {
 	}
 	vrt.Observe("first=%v accepted=%v events=%v", first, accepted, events)
 }
+
 // cancelledWrite: a client write is cancelled (context done) while it waits
 // in the object's mailbox behind a slow call. Whatever the writer is told, the
 // write takes effect at most once: at most one event carries its value, and
@@ -570,6 +573,7 @@ func cancelledWrite() {
 	}
 	vrt.Observe("werr=%v events=%v", werr != nil, events)
 }
+
 // burst: a subscriber that does not read while several clients write a burst
 // of values (well within the documented capacity of a subscription), then
 // reads: it receives every accepted write exactly once.
